@@ -21,7 +21,7 @@ structure InvW (c : Cfg) (s : State) : Prop where
   oclosedRem : s.oclosed = true → s.orem = 0
   slice : c.chanForm = false → s.oclosed = true
   waitK : (s.pc = .wait ∨ s.pc = .close ∨ s.pc = .fin) → s.k = c.n
-  allFin : (s.pc = .close ∨ s.pc = .fin) → ∀ i, i < c.n → s.st i = .finished
+  allFin : (s.pc = .close ∨ s.pc = .fin) → ∀ i, i < c.n → s.st i = .finished ∨ s.st i = .skipped
   outCl : s.outClosed = true ↔ s.pc = .fin
   deliv : ∀ i, i < c.n → c.items i = gotOf s.got i ++ held (s.st i) ++ (s.ch i).buf ++ s.pend i
   drained : ∀ i, (s.st i = .doneCall ∨ s.st i = .finished) → (s.ch i).closed = true ∧ (s.ch i).buf = []
@@ -30,36 +30,104 @@ structure InvW (c : Cfg) (s : State) : Prop where
   caps : ∀ i, (s.ch i).cap = c.cap i
   inLen : ∀ i, (s.ch i).buf.length ≤ (s.ch i).cap
 
-/-- the invariant: `InvW`, and in the slice form the spawner is never parked at the loop head -/
-def Inv (c : Cfg) (s : State) : Prop := InvW c s ∧ (c.chanForm = false → s.pc ≠ .next)
-
-/-- the local step of the spawner at the loop head preserves the invariant -/
-theorem inv_advance (c : Cfg) (s : State) (hi : InvW c s) (hpc : s.pc = .next)
-    (hen : 0 < s.obuf ∨ s.oclosed = true) : Inv c (advance s) := by
-  unfold advance
+/-- one turn of the dispatcher's loop head preserves the invariant -/
+theorem invW_take (c : Cfg) (s : State) (hi : InvW c s) (hpc : s.pc = .next)
+    (hen : 0 < s.obuf ∨ s.oclosed = true) : InvW c (take c s) := by
+  unfold take
+  have ho := hi.outer
+  simp only [hpc] at ho
+  have hwg := hi.wgc
+  simp only [hpc] at hwg
+  have hoc := hi.outCl
+  simp only [hpc] at hoc
   by_cases hb : 0 < s.obuf
   · simp only [hb, if_true]
-    have ho := hi.outer
-    simp only [hpc] at ho
-    refine ⟨⟨hi.np, ?_, hi.abs, hi.kle, ?_, hi.oclosedRem, hi.slice, ?_, ?_, ?_, hi.deliv, hi.drained,
-      hi.closedPend, hi.seenC, hi.caps, hi.inLen⟩, by simp⟩
-    · have := hi.wgc; simp only [hpc] at this; simpa using this
-    · simp at ho ⊢; omega
-    · intro h; simp at h
-    · intro h; simp at h
-    · have := hi.outCl; simp only [hpc] at this; simpa using this
+    by_cases hs : c.seen s.k = true
+    · -- `continue`: the position is skipped, the dispatcher stays at the loop head
+      simp only [hs, if_true]
+      simp at ho
+      have hkn : s.k < c.n := by omega
+      have habs : s.st s.k = .absent := (hi.abs s.k).mpr (Nat.le_refl _)
+      refine ⟨hi.np, ?_, ?_, ?_, ?_, hi.oclosedRem, hi.slice, ?_, ?_, ?_, ?_, ?_, hi.closedPend, hi.seenC,
+        hi.caps, hi.inLen⟩
+      · have h2 := count_upd_lt live s.st s.k FSt.skipped c.n hkn
+        rw [habs] at h2
+        have e1 : live FSt.absent = false := rfl
+        have e2 : live FSt.skipped = false := rfl
+        simp only [e1, e2] at h2
+        simp only [hpc]
+        simp at hwg h2 ⊢
+        omega
+      · intro i
+        simp only [upd]
+        by_cases hik : i = s.k
+        · subst hik; simp
+        · simp only [hik, if_false]; rw [hi.abs i]; omega
+      · show s.k + 1 ≤ c.n; omega
+      · simp only [hpc]; simp; omega
+      · intro h; simp only [hpc] at h; simp at h
+      · intro h; simp only [hpc] at h; simp at h
+      · simp only [hpc]; simpa using hoc
+      · intro i hin
+        have := hi.deliv i hin
+        simp only [upd]
+        by_cases hik : i = s.k
+        · subst hik; simp only [if_true]; rw [habs] at this; simpa [held] using this
+        · simp only [hik, if_false]; exact this
+      · intro i h
+        simp only [upd] at h
+        by_cases hik : i = s.k
+        · simp [hik] at h
+        · simp only [hik, if_false] at h; exact hi.drained i h
+    · simp only [hs]
+      refine ⟨hi.np, ?_, hi.abs, hi.kle, ?_, hi.oclosedRem, hi.slice, ?_, ?_, ?_, hi.deliv, hi.drained,
+        hi.closedPend, hi.seenC, hi.caps, hi.inLen⟩
+      · simpa using hwg
+      · simp at ho ⊢; omega
+      · intro h; simp at h
+      · intro h; simp at h
+      · simpa using hoc
   · simp only [hb, if_false]
     have hcl : s.oclosed = true := by rcases hen with h | h; exact absurd h hb; exact h
-    have ho := hi.outer
-    simp only [hpc] at ho
     have hrem := hi.oclosedRem hcl
-    refine ⟨⟨hi.np, ?_, hi.abs, hi.kle, ?_, hi.oclosedRem, hi.slice, ?_, ?_, ?_, hi.deliv, hi.drained,
-      hi.closedPend, hi.seenC, hi.caps, hi.inLen⟩, by simp⟩
-    · have := hi.wgc; simp only [hpc] at this; simpa using this
+    refine ⟨hi.np, ?_, hi.abs, hi.kle, ?_, hi.oclosedRem, hi.slice, ?_, ?_, ?_, hi.deliv, hi.drained,
+      hi.closedPend, hi.seenC, hi.caps, hi.inLen⟩
+    · simpa using hwg
     · simp at ho ⊢; omega
     · intro _; show s.k = c.n; simp at ho; omega
     · intro h; simp at h
-    · have := hi.outCl; simp only [hpc] at this; simpa using this
+    · simpa using hoc
+
+theorem take_pc (c : Cfg) (s : State) (hpc : s.pc = .next) :
+    ((take c s).pc = .next ∧ 0 < s.obuf ∧ (take c s).obuf = s.obuf - 1 ∧ (take c s).oclosed = s.oclosed) ∨
+    ((take c s).pc ≠ .next) := by
+  unfold take
+  by_cases hb : 0 < s.obuf
+  · by_cases hs : c.seen s.k = true
+    · simp [hb, hs, hpc]
+    · simp [hb, hs]
+  · simp [hb]
+
+/-- the invariant: `InvW`, and in the slice form the dispatcher is never parked at the loop head -/
+def Inv (c : Cfg) (s : State) : Prop := InvW c s ∧ (c.chanForm = false → s.pc ≠ .next)
+
+/-- slice form: iterating `take` (fuel ≥ buffered positions) preserves the invariant and leaves the loop head -/
+theorem inv_advance (c : Cfg) : ∀ (f : Nat) (s : State), InvW c s → s.pc = .next → s.oclosed = true →
+    s.obuf ≤ f → Inv c (advance c f s)
+  | 0, s, hi, hpc, hcl, hf => by
+    simp only [advance]
+    refine ⟨invW_take c s hi hpc (Or.inr hcl), fun _ => ?_⟩
+    rcases take_pc c s hpc with h | h
+    · omega
+    · exact h
+  | f + 1, s, hi, hpc, hcl, hf => by
+    simp only [advance]
+    have hw := invW_take c s hi hpc (Or.inr hcl)
+    rcases take_pc c s hpc with h | h
+    · simp only [h.1, if_true]
+      exact inv_advance c f (take c s) hw h.1 (by rw [h.2.2.2]; exact hcl) (by omega)
+    · simp only [h, if_false]
+      exact ⟨hw, fun _ => h⟩
 
 theorem invW_pre (c : Cfg) (orem obuf : Nat) (ocl : Bool) (h1 : obuf + orem = c.n)
     (h2 : ocl = true → orem = 0) (h3 : c.chanForm = false → ocl = true) :
@@ -76,7 +144,7 @@ theorem inv_init (c : Cfg) : Inv c (init c) := by
   · simp only [hf, if_true]
     exact ⟨invW_pre c c.n 0 false (by omega) (by simp) (by simp [hf]), by simp [hf]⟩
   · simp only [hf]
-    exact inv_advance c _ (invW_pre c 0 c.n true (by omega) (by simp) (by simp)) rfl (Or.inr rfl)
+    exact inv_advance c c.n _ (invW_pre c 0 c.n true (by omega) (by simp) (by simp)) rfl rfl (Nat.le_refl _)
 
 theorem count_pos_of (p : Nat → Bool) (n i : Nat) (hi : i < n) (hp : p i = true) : 0 < count p n := by
   cases h : count p n with
@@ -104,15 +172,14 @@ theorem inv_env_outer (c : Cfg) (s s' : State) (hi : Inv c s)
           obtain ⟨_, hpc⟩ := hj
           cases hs
           have ho := hw.outer
-          simp only [hpc] at ho
-          refine ⟨⟨rfl, ?_, hw.abs, hw.kle, ?_, ?_, hw.slice, ?_, ?_, ?_, hw.deliv,
-            hw.drained, hw.closedPend, hw.seenC, hw.caps, hw.inLen⟩, by simp⟩
-          · have := hw.wgc; simp only [hpc] at this; simpa using this
-          · simp at ho ⊢; omega
-          · intro h; rw [hcl] at h; cases h
-          · intro h; simp at h
-          · intro h; simp at h
-          · have := hw.outCl; simp only [hpc] at this; simpa using this
+          -- the hand-over = the producer's push followed at once by the dispatcher's take
+          have hw1 : InvW c { s with orem := s.orem - 1, obuf := s.obuf + 1, panicked := false } := by
+            refine ⟨rfl, hw.wgc, hw.abs, hw.kle, ?_, ?_, hw.slice, hw.waitK, hw.allFin, hw.outCl, hw.deliv,
+              hw.drained, hw.closedPend, hw.seenC, hw.caps, hw.inLen⟩
+            · show s.k + (if s.pc = .add ∨ s.pc = .go then 1 else 0) + (s.obuf + 1) + (s.orem - 1) = c.n
+              omega
+            · intro h; rw [hcl] at h; cases h
+          exact ⟨invW_take c _ hw1 hpc (Or.inl (by show 0 < s.obuf + 1; omega)), by simp [hcf]⟩
         · cases hs
     · cases hs
   · simp only [step, hw.np, Bool.false_eq_true, if_false] at hs
@@ -129,8 +196,8 @@ theorem inv_spNext (c : Cfg) (s s' : State) (hi : Inv c s) (hs : step c s .spNex
   split at hs
   · next hc =>
     cases hs
-    have := inv_advance c s hw hc.2.1 hc.2.2
-    simpa [hw.np] using this
+    have := invW_take c s hw hc.2.1 hc.2.2
+    exact ⟨by simpa [hw.np] using this, by simp [hc.1]⟩
   · cases hs
 
 theorem inv_spAdd (c : Cfg) (s s' : State) (hi : Inv c s) (hs : step c s .spAdd = some s') : Inv c s' := by
@@ -150,6 +217,47 @@ theorem inv_spAdd (c : Cfg) (s s' : State) (hi : Inv c s) (hs : step c s .spAdd 
     · have := hw.outCl; simp only [hpc] at this; simpa using this
   · cases hs
 
+/-- the state right after `go` (dispatcher back at the loop head) satisfies the invariant -/
+theorem invW_afterGo (c : Cfg) (s : State) (hw : InvW c s) (hpc : s.pc = .go) :
+    InvW c { s with st := upd s.st s.k .recv, k := s.k + 1, pc := .next } := by
+  have ho := hw.outer
+  simp only [hpc] at ho
+  simp at ho
+  have hkn : s.k < c.n := by omega
+  have habs : s.st s.k = .absent := (hw.abs s.k).mpr (Nat.le_refl _)
+  refine ⟨hw.np, ?_, ?_, ?_, ?_, hw.oclosedRem, hw.slice, ?_, ?_, ?_, ?_, ?_, hw.closedPend, hw.seenC,
+    hw.caps, hw.inLen⟩
+  · have h1 := hw.wgc
+    simp only [hpc] at h1
+    have h2 := count_upd_lt live s.st s.k FSt.recv c.n hkn
+    rw [habs] at h2
+    have e1 : live FSt.absent = false := rfl
+    have e2 : live FSt.recv = true := rfl
+    simp only [e1, e2] at h2
+    simp at h1 h2 ⊢
+    omega
+  · intro i
+    simp only [upd]
+    by_cases hik : i = s.k
+    · subst hik; simp
+    · simp only [hik, if_false]; rw [hw.abs i]; omega
+  · show s.k + 1 ≤ c.n; omega
+  · simp; omega
+  · intro h; simp at h
+  · intro h; simp at h
+  · have := hw.outCl; simp only [hpc] at this; simpa using this
+  · intro i hin
+    have := hw.deliv i hin
+    simp only [upd]
+    by_cases hik : i = s.k
+    · subst hik; simp only [if_true]; rw [habs] at this; simpa [held] using this
+    · simp only [hik, if_false]; exact this
+  · intro i h
+    simp only [upd] at h
+    by_cases hik : i = s.k
+    · simp [hik] at h
+    · simp only [hik, if_false] at h; exact hw.drained i h
+
 theorem inv_spGo (c : Cfg) (s s' : State) (hi : Inv c s) (hs : step c s .spGo = some s') : Inv c s' := by
   obtain ⟨hw, hsl⟩ := hi
   simp only [step, hw.np, Bool.false_eq_true, if_false] at hs
@@ -160,39 +268,7 @@ theorem inv_spGo (c : Cfg) (s s' : State) (hi : Inv c s) (hs : step c s .spGo = 
     simp at ho
     have hkn : s.k < c.n := by omega
     have habs : s.st s.k = .absent := (hw.abs s.k).mpr (Nat.le_refl _)
-    have hw1 : InvW c { s with st := upd s.st s.k .recv, k := s.k + 1, pc := .next } := by
-      refine ⟨hw.np, ?_, ?_, ?_, ?_, hw.oclosedRem, hw.slice, ?_, ?_, ?_, ?_, ?_, hw.closedPend, hw.seenC,
-        hw.caps, hw.inLen⟩
-      · have h1 := hw.wgc
-        simp only [hpc] at h1
-        have h2 := count_upd_lt live s.st s.k FSt.recv c.n hkn
-        rw [habs] at h2
-        have e1 : live FSt.absent = false := rfl
-        have e2 : live FSt.recv = true := rfl
-        simp only [e1, e2] at h2
-        simp at h1 h2 ⊢
-        omega
-      · intro i
-        simp only [upd]
-        by_cases hik : i = s.k
-        · subst hik; simp
-        · simp only [hik, if_false]; rw [hw.abs i]; omega
-      · show s.k + 1 ≤ c.n; omega
-      · simp; omega
-      · intro h; simp at h
-      · intro h; simp at h
-      · have := hw.outCl; simp only [hpc] at this; simpa using this
-      · intro i hin
-        have := hw.deliv i hin
-        simp only [upd]
-        by_cases hik : i = s.k
-        · subst hik; simp only [if_true]; rw [habs] at this; simpa [held] using this
-        · simp only [hik, if_false]; exact this
-      · intro i h
-        simp only [upd] at h
-        by_cases hik : i = s.k
-        · simp [hik] at h
-        · simp only [hik, if_false] at h; exact hw.drained i h
+    have hw1 := invW_afterGo c s hw hpc
     by_cases hf : c.chanForm = true
     · simp only [hf, if_true, Option.some.injEq] at hs
       subst hs
@@ -200,7 +276,7 @@ theorem inv_spGo (c : Cfg) (s s' : State) (hi : Inv c s) (hs : step c s .spGo = 
     · simp only [hf, Option.some.injEq] at hs
       subst hs
       have hcl : s.oclosed = true := hw.slice (by simpa using hf)
-      have := inv_advance c _ hw1 rfl (Or.inr hcl)
+      have := inv_advance c s.obuf _ hw1 rfl hcl (Nat.le_refl _)
       simpa [hw.np] using this
   · cases hs
 
@@ -225,7 +301,7 @@ theorem inv_spWait (c : Cfg) (s s' : State) (hi : Inv c s) (hs : step c s .spWai
       have hl := count_zero _ c.n hcnt i hin
       have hna : s.st i ≠ .absent := by
         intro h; have := (hw.abs i).mp h; omega
-      show s.st i = .finished
+      show s.st i = .finished ∨ s.st i = .skipped
       cases h : s.st i <;> simp_all [live]
     · have := hw.outCl; simp only [hpc] at this; simpa using this
   · cases hs
@@ -305,7 +381,7 @@ theorem inv_pSend (c : Cfg) (s s' : State) (i : Nat) (hi : Inv c s) (hs : step c
             have hnotfin : ¬ (s.pc = .close ∨ s.pc = .fin) := by
               intro h
               have := hw.allFin h i hin
-              rw [hst] at this; cases this
+              rw [hst] at this; rcases this with h' | h' <;> cases h'
             refine ⟨⟨rfl, ?_, ?_, hw.kle, hw.outer, hw.oclosedRem, hw.slice, hw.waitK, ?_,
               hw.outCl, ?_, ?_, ?_, hw.seenC, hw.caps, hw.inLen⟩, hsl⟩
             · have h1 := hw.wgc
@@ -410,7 +486,7 @@ theorem inv_fRecv (c : Cfg) (s s' : State) (i : Nat) (hi : Inv c s) (hs : step c
       have hnotfin : ¬ (s.pc = .close ∨ s.pc = .fin) := by
         intro h
         have := hw.allFin h i hin
-        rw [hst] at this; cases this
+        rw [hst] at this; rcases this with h' | h' <;> cases h'
       have hlive : live (s.st i) = true := by rw [hst]; rfl
       have hna : s.st i ≠ .absent := by rw [hst]; intro h; cases h
       split at hs
@@ -472,7 +548,7 @@ theorem inv_fSend (c : Cfg) (s s' : State) (i : Nat) (hi : Inv c s) (hs : step c
       split at hs
       · next hoc =>
         have hfin := hw.allFin (Or.inr (hw.outCl.mp hoc)) i hin
-        rw [hst] at hfin; cases hfin
+        rw [hst] at hfin; rcases hfin with h' | h' <;> cases h'
       · cases hs
     · cases hs
 
@@ -489,7 +565,7 @@ theorem inv_fDone (c : Cfg) (s s' : State) (i : Nat) (hi : Inv c s) (hs : step c
       have hnotfin : ¬ (s.pc = .close ∨ s.pc = .fin) := by
         intro h
         have := hw.allFin h i hin
-        rw [hst] at this; cases this
+        rw [hst] at this; rcases this with h' | h' <;> cases h'
       have hpos : 0 < count (fun j => live (s.st j)) c.n :=
         count_pos_of _ c.n i hin (by simp only [hst]; rfl)
       have hwg := hw.wgc
@@ -534,7 +610,7 @@ theorem inv_cTake (c : Cfg) (s s' : State) (i : Nat) (hi : Inv c s) (hs : step c
         have hnotfin : ¬ (s.pc = .close ∨ s.pc = .fin) := by
           intro h
           have := hw.allFin h i hin
-          rw [hst] at this; cases this
+          rw [hst] at this; rcases this with h' | h' <;> cases h'
         refine ⟨⟨rfl, wgc_live_upd c s i .recv hin hw (by rw [hst]; rfl) rfl,
           abs_upd c s i .recv hw (by rw [hst]; intro h; cases h) (by intro h; cases h),
           hw.kle, hw.outer, hw.oclosedRem, hw.slice, hw.waitK, fun h => absurd h hnotfin,
@@ -595,6 +671,7 @@ theorem live_can_move' (c : Cfg) (s : State) (hw : InvW c s) (hns : s.seen = fal
   cases hst : s.st i with
   | absent => rw [hst] at hl; cases hl
   | finished => rw [hst] at hl; cases hl
+  | skipped => rw [hst] at hl; cases hl
   | doneCall =>
     by_cases h0 : s.wg = 0
     · exact ⟨.fDone i, Or.inl rfl, by simp [step, hw.np, hnle, hst, h0]⟩
@@ -672,19 +749,39 @@ theorem progress (c : Cfg) (s : State) (hi : Inv c s) (hns : s.seen = false) : (
         · have := hw.outCl.mp h; rw [hpc] at this; cases this
       exact live_can_move c s hw hns hoc i hin hl
 
-theorem advance_frame (s : State) : (advance s).orem = s.orem ∧ (advance s).oclosed = s.oclosed := by
-  unfold advance; split <;> simp
+/-- `take` touches only the dispatcher's own state and the outer buffer -/
+theorem take_frame (c : Cfg) (s : State) :
+    (take c s).orem = s.orem ∧ (take c s).oclosed = s.oclosed ∧ (take c s).got = s.got := by
+  unfold take; split
+  · split <;> simp
+  · simp
+
+theorem advance_frame (c : Cfg) : ∀ (f : Nat) (s : State),
+    (advance c f s).orem = s.orem ∧ (advance c f s).oclosed = s.oclosed ∧ (advance c f s).got = s.got
+  | 0, s => take_frame c s
+  | f + 1, s => by
+    simp only [advance]
+    have ht := take_frame c s
+    split
+    · have := advance_frame c f (take c s)
+      exact ⟨this.1.trans ht.1, this.2.1.trans ht.2.1, this.2.2.trans ht.2.2⟩
+    · exact ht
 
 /-- only the outer producer's steps change what is still to be sent on / the closed flag of the outer channel -/
 theorem step_frame (c : Cfg) (s s' : State) (l : Label) (h1 : l ≠ .oSend) (h2 : l ≠ .oClose)
     (hs : step c s l = some s') : s'.orem = s.orem ∧ s'.oclosed = s.oclosed := by
   cases l <;> simp only [step] at hs <;> (repeat' split at hs) <;> (try cases hs) <;>
-    (first | exact absurd rfl h1 | exact absurd rfl h2 | exact ⟨rfl, rfl⟩ | exact advance_frame _ | skip)
+    (first | exact absurd rfl h1 | exact absurd rfl h2 | exact ⟨rfl, rfl⟩ |
+      exact ⟨(take_frame c _).1, (take_frame c _).2.1⟩ | exact ⟨(advance_frame c _ _).1, (advance_frame c _ _).2.1⟩ | skip)
 
 theorem step_oSend (c : Cfg) (s s' : State) (hs : step c s .oSend = some s') :
     0 < s.orem ∧ s'.orem = s.orem - 1 ∧ s'.oclosed = s.oclosed ∧ s.oclosed = false := by
   simp only [step] at hs
-  (repeat' split at hs) <;> (try cases hs) <;> simp_all
+  (repeat' split at hs) <;> (try cases hs) <;>
+    (first
+      | (simp_all; done)
+      | (have ht := take_frame c { s with orem := s.orem - 1, obuf := s.obuf + 1 }
+         simp_all))
 
 theorem step_oClose (c : Cfg) (s s' : State) (hs : step c s .oClose = some s') :
     s.orem = 0 ∧ s'.orem = 0 ∧ s'.oclosed = true ∧ s.oclosed = false := by
@@ -697,7 +794,8 @@ theorem tags_step (c : Cfg) (s s' : State) (l : Label)
   cases l <;> simp only [step] at hs <;> (repeat' split at hs) <;> (try cases hs) <;>
     (first
       | exact hi
-      | (unfold advance; split <;> exact hi)
+      | (rw [(take_frame c _).2.2]; exact hi)
+      | (rw [(advance_frame c _ _).2.2]; exact hi)
       | (intro p hp
          simp only [List.mem_append, List.mem_singleton] at hp
          rcases hp with hp | hp
@@ -709,22 +807,26 @@ theorem tags_reachable (c : Cfg) (s : State) (h : (lts c).Reachable s) : ∀ p, 
   Lts.invariant (lts c) (fun s => ∀ p, p ∈ s.got → p.1 < c.n)
     (by unfold lts init; simp only []; split
         · intro p hp; cases hp
-        · unfold advance; split <;> (intro p hp; cases hp))
+        · rw [(advance_frame c _ _).2.2]; intro p hp; cases hp)
     (fun s l s' hi hs => tags_step c s s' l hi hs) s h
 
 /-- once the spawner is past its loop the outer channel has been closed -/
 def WaitClosed (s : State) : Prop := (s.pc = .wait ∨ s.pc = .close ∨ s.pc = .fin) → s.oclosed = true
 
-theorem advance_waitClosed (s : State) (_hpc : s.pc = .next) (hen : 0 < s.obuf ∨ s.oclosed = true) :
-    WaitClosed (advance s) := by
-  unfold advance WaitClosed
+theorem take_waitClosed (c : Cfg) (s : State) (hpc : s.pc = .next) (hen : 0 < s.obuf ∨ s.oclosed = true) :
+    WaitClosed (take c s) := by
+  unfold take WaitClosed
   split
-  · intro h; simp at h
+  · split
+    · intro h; simp [hpc] at h
+    · intro h; simp at h
   · next hb =>
     intro _
     rcases hen with h | h
     · exact absurd h hb
     · exact h
+
+theorem waitClosed_of_oclosed (s : State) (h : s.oclosed = true) : WaitClosed s := fun _ => h
 
 theorem waitClosed_step (c : Cfg) (s s' : State) (l : Label) (hi : Inv c s) (hw : WaitClosed s)
     (hs : step c s l = some s') : WaitClosed s' := by
@@ -732,16 +834,20 @@ theorem waitClosed_step (c : Cfg) (s s' : State) (l : Label) (hi : Inv c s) (hw 
   | spNext =>
     simp only [step] at hs
     (repeat' split at hs) <;> (try cases hs)
-    next hc => exact advance_waitClosed s hc.2.1 hc.2.2
+    next hc => exact take_waitClosed c s hc.2.1 hc.2.2
   | spGo =>
     simp only [step] at hs
     (repeat' split at hs) <;> (try cases hs)
     · intro h; simp at h
     · next _ hf =>
-      exact advance_waitClosed _ rfl (Or.inr (hi.1.slice (by simpa using hf)))
+      apply waitClosed_of_oclosed
+      rw [(advance_frame c _ _).2.1]
+      exact hi.1.slice (by simpa using hf)
   | oSend =>
     simp only [step] at hs
-    (repeat' split at hs) <;> (try cases hs) <;> (unfold WaitClosed at *; simp_all)
+    (repeat' split at hs) <;> (try cases hs)
+    · unfold WaitClosed at *; simp_all
+    · next hj => exact take_waitClosed c _ hj.2 (Or.inl (by show 0 < s.obuf + 1; omega))
   | oClose =>
     simp only [step] at hs
     (repeat' split at hs) <;> (try cases hs) <;> (unfold WaitClosed at *; simp_all)
@@ -784,7 +890,7 @@ theorem waitClosed_reachable (c : Cfg) (s : State) (h : (lts c).Reachable s) : W
       simp only []
       split
       · intro h; simp at h
-      · exact advance_waitClosed _ rfl (Or.inr rfl)⟩
+      · apply waitClosed_of_oclosed; rw [(advance_frame c _ _).2.1]⟩
     (fun s l s' hi hs => ⟨inv_step c s s' l hi.1 hs, waitClosed_step c s s' l hi.1 hi.2 hs⟩) s h
   exact this.2
 
@@ -792,7 +898,7 @@ def spW : SPc → Nat
   | .next => 4 | .add => 3 | .go => 2 | .wait => 2 | .close => 1 | .fin => 0
 
 def stW : FSt → Nat
-  | .absent => 3 | .recv => 2 | .send _ => 4 | .doneCall => 1 | .finished => 0
+  | .absent => 3 | .recv => 2 | .send _ => 4 | .doneCall => 1 | .finished => 0 | .skipped => 0
 
 def chW (ch : Chan) : Nat := 5 * ch.buf.length + (if ch.closed then 0 else 1)
 
@@ -803,15 +909,47 @@ def measure (c : Cfg) (s : State) : Nat :=
   sumTo (fun i => stW (s.st i)) c.n +
   (if s.outClosed then 0 else 1) + (if s.seen then 0 else 1) + (if s.panicked then 0 else 1)
 
-theorem measure_advance (c : Cfg) (s : State) (hpc : s.pc = .next) :
-    measure c (advance s) < measure c s := by
-  unfold advance
+theorem measure_take (c : Cfg) (s : State) (hpc : s.pc = .next)
+    (hk : 0 < s.obuf → s.k < c.n ∧ s.st s.k = .absent) : measure c (take c s) < measure c s := by
+  unfold take
   have e1 : spW SPc.next = 4 := rfl
   have e2 : spW SPc.add = 3 := rfl
   have e3 : spW SPc.wait = 2 := rfl
   split
-  · simp only [measure, hpc, e1, e2]; omega
+  · next hb =>
+    obtain ⟨hkn, habs⟩ := hk hb
+    split
+    · have h3 := sumTo_upd_lt stW s.st s.k FSt.skipped c.n hkn
+      rw [habs] at h3
+      have e4 : stW FSt.absent = 3 := rfl
+      have e5 : stW FSt.skipped = 0 := rfl
+      simp only [e4, e5] at h3
+      simp only [measure, hpc, e1]
+      omega
+    · simp only [measure, hpc, e1, e2]; omega
   · simp only [measure, hpc, e1, e3]; omega
+
+theorem take_hk (c : Cfg) (s : State) (hw : InvW c s) (hpc : s.pc = .next) :
+    0 < s.obuf → s.k < c.n ∧ s.st s.k = .absent := by
+  intro hb
+  have ho := hw.outer
+  simp only [hpc] at ho
+  simp at ho
+  exact ⟨by omega, (hw.abs s.k).mpr (Nat.le_refl _)⟩
+
+theorem measure_advance (c : Cfg) : ∀ (f : Nat) (s : State), InvW c s → s.pc = .next → s.oclosed = true →
+    measure c (advance c f s) < measure c s
+  | 0, s, hw, hpc, _ => by
+    simp only [advance]; exact measure_take c s hpc (take_hk c s hw hpc)
+  | f + 1, s, hw, hpc, hcl => by
+    simp only [advance]
+    have h1 := measure_take c s hpc (take_hk c s hw hpc)
+    split
+    · next hn =>
+      have hw' := invW_take c s hw hpc (Or.inr hcl)
+      have := measure_advance c f (take c s) hw' hn (by rw [(take_frame c s).2.1]; exact hcl)
+      exact Nat.lt_trans this h1
+    · exact h1
 
 theorem measure_decreases (c : Cfg) (s s' : State) (l : Label) (hi : Inv c s)
     (hs : step c s l = some s') : measure c s' < measure c s := by
@@ -832,7 +970,17 @@ theorem measure_decreases (c : Cfg) (s s' : State) (l : Label) (hi : Inv c s)
       split at hs
       · cases hs; simp only [measure, hnp, Bool.false_eq_true, if_false]; omega
       · split at hs
-        · next hj => cases hs; simp only [measure, hnp, Bool.false_eq_true, if_false, hj.2, eNext, eAdd]; omega
+        · next hj =>
+          cases hs
+          have hk := take_hk c s hw hj.2
+          have ho := hw.outer
+          simp only [hj.2] at ho
+          simp at ho
+          have h1 : measure c { s with orem := s.orem - 1, obuf := s.obuf + 1, panicked := false } < measure c s := by
+            simp only [measure, hnp, Bool.false_eq_true, if_false]; omega
+          refine Nat.lt_trans (measure_take c _ hj.2 ?_) h1
+          intro _
+          exact ⟨by show s.k < c.n; omega, (hw.abs s.k).mpr (Nat.le_refl _)⟩
         · cases hs
     · cases hs
   | oClose =>
@@ -843,7 +991,7 @@ theorem measure_decreases (c : Cfg) (s s' : State) (l : Label) (hi : Inv c s)
   | spNext =>
     simp only [step, hnp, Bool.false_eq_true, if_false] at hs
     split at hs
-    · next hc => cases hs; exact measure_advance c s hc.2.1
+    · next hc => cases hs; exact measure_take c s hc.2.1 (take_hk c s hw hc.2.1)
     · cases hs
   | spAdd =>
     simp only [step, hnp, Bool.false_eq_true, if_false] at hs
@@ -869,8 +1017,13 @@ theorem measure_decreases (c : Cfg) (s s' : State) (l : Label) (hi : Inv c s)
         omega
       split at hs
       · cases hs; exact h1
-      · cases hs
-        exact Nat.lt_trans (measure_advance c _ rfl) h1
+      · next hf =>
+        cases hs
+        have hw1 := invW_afterGo c s hw hpc
+        have hcl : s.oclosed = true := hw.slice (by simpa using hf)
+        have := measure_advance c s.obuf _ hw1 rfl hcl
+        simp only [hnp] at this
+        exact Nat.lt_trans this h1
     · cases hs
   | spWait =>
     simp only [step, hnp, Bool.false_eq_true, if_false] at hs
@@ -1014,5 +1167,66 @@ theorem measure_decreases (c : Cfg) (s s' : State) (l : Label) (hi : Inv c s)
     split at hs
     · next hc => cases hs; simp only [measure, hnp, Bool.false_eq_true, if_false, hc.1, Bool.false_eq_true, if_false, if_true]; omega
     · cases hs
+
+/-- only positions that repeat an earlier channel are ever skipped -/
+def SkipSeen (c : Cfg) (s : State) : Prop := ∀ i, s.st i = .skipped → c.seen i = true
+
+theorem skipSeen_take (c : Cfg) (s : State) (h : SkipSeen c s) : SkipSeen c (take c s) := by
+  unfold take
+  split
+  · split
+    · next hs =>
+      intro i hi
+      simp only [upd] at hi
+      split at hi
+      · next hik => rw [hik]; exact hs
+      · exact h i hi
+    · exact h
+  · exact h
+
+theorem skipSeen_advance (c : Cfg) : ∀ (f : Nat) (s : State), SkipSeen c s → SkipSeen c (advance c f s)
+  | 0, s, h => skipSeen_take c s h
+  | f + 1, s, h => by
+    simp only [advance]
+    split
+    · exact skipSeen_advance c f _ (skipSeen_take c s h)
+    · exact skipSeen_take c s h
+
+theorem skipSeen_upd (c : Cfg) (s : State) (i : Nat) (x : FSt) (hx : x ≠ .skipped) (h : SkipSeen c s) :
+    ∀ j, upd s.st i x j = .skipped → c.seen j = true := by
+  intro j hj
+  simp only [upd] at hj
+  split at hj
+  · exact absurd hj hx
+  · exact h j hj
+
+theorem skipSeen_step (c : Cfg) (s s' : State) (l : Label) (h : SkipSeen c s) (hs : step c s l = some s') :
+    SkipSeen c s' := by
+  cases l <;> simp only [step] at hs <;> (repeat' split at hs) <;> (try cases hs) <;>
+    (first
+      | exact h
+      | exact skipSeen_take c _ h
+      | exact skipSeen_upd c s _ _ (by intro hh; cases hh) h
+      | exact skipSeen_advance c _ _ (skipSeen_upd c s _ _ (by intro hh; cases hh) h))
+
+theorem skipSeen_reachable (c : Cfg) (s : State) (h : (lts c).Reachable s) : SkipSeen c s :=
+  Lts.invariant (lts c) (SkipSeen c)
+    (by
+      show SkipSeen c (init c)
+      unfold init
+      simp only []
+      split
+      · intro i hi; cases hi
+      · exact skipSeen_advance c _ _ (by intro i hi; cases hi))
+    (fun s l s' hi hs => skipSeen_step c s s' l hi hs) s h
+
+/-- with distinct inputs (`seen` false everywhere) the `listening` skip never fires: no position is skipped,
+so every forwarder status is one of the five of the model without the bookkeeping -/
+theorem distinct_never_skips (c : Cfg) (hd : ∀ i, c.seen i = false) (s : State) (h : (lts c).Reachable s) :
+    ∀ i, s.st i ≠ .skipped := by
+  intro i hi
+  have := skipSeen_reachable c s h i hi
+  rw [hd i] at this
+  cases this
 
 end Goderive.K.JoinWG
